@@ -25,12 +25,29 @@ from .c03 import dist, tol_unit, xbytes
 import re
 
 
-def proximal_recipes():
+def proximal_recipes(tier=None):
+    """Recipes of the first version (below) plus the systematic catalogue harness/proxcat.py (every factory x every keyword x
+    space axes, all-pairs in the quick tier, plus a sample of the full product otherwise).  The tier is taken from the
+    command line like harness/main.py does (`replay` gets the thorough list, which contains the quick one)."""
+    import sys
+    from .. import proxcat
+    if tier is None:
+        argv = sys.argv[1:]
+        tier = os.environ.get('VERIF_TIER', 'quick')
+        if '--tier' in argv:
+            tier = argv[argv.index('--tier') + 1]
+        if argv and argv[0] == 'replay':
+            tier = 'thorough'
     R = []
     S = odl.solvers
+    seen = set()
 
     def add(family, opts, fn):
-        R.append((family, opts, fn))
+        key = (family, tuple(sorted((k, str(v)) for k, v in opts.items())))
+        if key in seen:
+            return
+        seen.add(key)
+        R.append((family, dict(opts), fn))
     spaces = [('rn', odl.rn(3)), ('rn-120', odl.rn(120)), ('rn-const', odl.rn(3, weighting=2.0)),
               ('rn-array', odl.rn(3, weighting=[1.0, 2.0, 0.5])), ('discr', odl.uniform_discr(0, 2, 4))]
     for sn, sp in spaces:
@@ -75,6 +92,8 @@ def proximal_recipes():
         add('combine_proximals', {'space': 'pspace-' + bn},
             lambda basesp=basesp: S.combine_proximals(S.proximal_l1(basesp), S.proximal_l2_squared(basesp))(0.5))
         add('proximal_huber', {'space': 'pspace-' + bn}, lambda vf=vf: S.proximal_huber(vf, 0.5)(0.5))
+    for fam, opts, fn in proxcat.recipes(tier):
+        add(fam, opts, fn)
     return R
 
 
